@@ -181,6 +181,10 @@ func (b *bitstream) Next() error {
 
 	// Found the end of the file.
 	if c == -1 {
+		if !b.stack.empty() {
+			// The input stops before the end of the container we are in.
+			return &UnexpectedEOFError{b.pos}
+		}
 		b.code = bitcodeEOF
 		return nil
 	}
@@ -1082,7 +1086,8 @@ func (b *bitstream) skip(n uint64) error {
 	b.pos += uint64(actual)
 
 	if err == io.EOF {
-		return nil
+		// The value or container being skipped declares more bytes than the input holds.
+		return &UnexpectedEOFError{b.pos}
 	}
 	if err != nil {
 		return &IOError{err}
